@@ -973,14 +973,19 @@ static sexp sexp_complex_copy (sexp ctx, sexp a) {
   sexp_gc_var1(res);
   sexp_gc_preserve1(ctx, res);
   res = sexp_make_complex(ctx, sexp_complex_real(a), sexp_complex_imag(a));
+  /* the copy (which callers negate in place) gets the fresh components */
   if (sexp_flonump(sexp_complex_real(a)))
-    sexp_complex_real(a) = sexp_make_flonum(ctx, sexp_flonum_value(sexp_complex_real(a)));
+    sexp_complex_real(res) = sexp_make_flonum(ctx, sexp_flonum_value(sexp_complex_real(a)));
   else if (sexp_bignump(sexp_complex_real(a)))
-    sexp_complex_real(a) = sexp_copy_bignum(ctx, NULL, sexp_complex_real(a), 0);
+    sexp_complex_real(res) = sexp_copy_bignum(ctx, NULL, sexp_complex_real(a), 0);
+  else if (sexp_ratiop(sexp_complex_real(a)))
+    sexp_complex_real(res) = sexp_make_ratio(ctx, sexp_ratio_numerator(sexp_complex_real(a)), sexp_ratio_denominator(sexp_complex_real(a)));
   if (sexp_flonump(sexp_complex_imag(a)))
-    sexp_complex_imag(a) = sexp_make_flonum(ctx, sexp_flonum_value(sexp_complex_imag(a)));
+    sexp_complex_imag(res) = sexp_make_flonum(ctx, sexp_flonum_value(sexp_complex_imag(a)));
   else if (sexp_bignump(sexp_complex_imag(a)))
-    sexp_complex_imag(a) = sexp_copy_bignum(ctx, NULL, sexp_complex_imag(a), 0);
+    sexp_complex_imag(res) = sexp_copy_bignum(ctx, NULL, sexp_complex_imag(a), 0);
+  else if (sexp_ratiop(sexp_complex_imag(a)))
+    sexp_complex_imag(res) = sexp_make_ratio(ctx, sexp_ratio_numerator(sexp_complex_imag(a)), sexp_ratio_denominator(sexp_complex_imag(a)));
   sexp_gc_release1(ctx);
   return res;
 }
